@@ -23,6 +23,12 @@ CHECKS = {
  "C13": dict(technique="structural oracle on the returned DataFrame + reference re-evaluation of every additional-target column at every in-scope row",
              text="Held on K generated models x N in {1,2,7,64} x target subsets: index, order, columns, _period, agent identity (law-of-motion chain) exact; target columns equal the model functions at the row.",
              ref="5/C13", note="trusted: numpy evaluation of user functions"),
+ "C15": dict(technique="reference-model monitor on the real kernel: independent 2^rank blend vs lcm.ndimage.map_coordinates; inverse laws of get_coordinate on random grids",
+             text="Held on K random arrays (rank 1-4) x coordinate batches and K random linear/log grids; tolerances conditioned on the grid (eps*|v|/step). x64 and f32.",
+             ref="5/C15", note="trusted: numpy reference blend"),
+ "C16": dict(technique="outcome oracle on grid constructors: exhaustive enumeration of a pool of 31x31x11 argument triples x 2 grid kinds and 27 category-value tuples x 3 class kinds, plus random compositions",
+             text="Every construction ends in GridInitializationError or an array that satisfies the statement (length, finite, strictly increasing, end points, equal spacing); discrete acceptance iff values numerically 0..n-1. The pools are enumerated exhaustively; random compositions beyond.",
+             ref="5/C16", note="x64 on; bool bounds judged at float32 precision (JAX promotes bools to float32); numpy-scalar field values / dataclass instances observed only; known finding: span below resolution", category="exploration"),
 }
 DEFAULT_NA = "check not built yet in this revision of /verif (planned in DESIGN.md section 5)"
 
